@@ -303,4 +303,8 @@ pub proof fn lemma_validate_order_free(t1: RevisionTree, t2: RevisionTree)
         match (t1.winner_cache, t2.winner_cache) { (Some(a), Some(b)) => a@ == b@, (None, None) => true, _ => false },
 {
     lemma_winner_unique(t1.revisions@, t1.winner_cache, t2.winner_cache);
+    assert forall|r: Revision| t1.leafs_cache@.contains(r) <==> t2.leafs_cache@.contains(r) by {
+        assert(t1.leafs_cache@.contains(r) <==> live(t1.revisions@, r));
+        assert(t2.leafs_cache@.contains(r) <==> live(t2.revisions@, r));
+    }
 }
